@@ -320,6 +320,8 @@ class Rules:
         b = self.sub('R12', RECV + r'\s*\.as_ref\(\)\s*\.is_some_and\(', lambda m: 'opt_is_some_and(%s.as_ref(), ' % norm_ws(m.group(1)).replace(' ', ''), b)
         # R18: BTreeSet::is_subset on two named sets -> trusted helper
         b = self.sub('R18', r'\b(\w+)\.is_subset\(&(\w+)\)', r'btreeset_is_subset(&\1, &\2)', b)
+        # R18: `a.is_superset(&b)` is `b.is_subset(&a)` (the std definition)
+        b = self.sub('R18', r'\b(\w+)\.is_superset\(&(\w+)\)', r'btreeset_is_subset(&\2, &\1)', b)
         # R15: Cow is erased (functions returning Cow<T> return T)
         b = self.sub('R15', r'\.into_owned\(\)', '', b)
         # R24: `.clone()` -> `.vclone()` (blanket trusted helper: Clone returns a structurally equal value, T4)
@@ -669,7 +671,7 @@ def _pipe(e, hit, ctr, opts=None):
         elif name == 'map':
             rm = re.match(r'^\(\s*(.+?)\s*\.\.\s*(.+?)\s*\)$', cur) if first else None
             if rm:
-                cur = bind('map', 'range_map_collect(%s, %s, %s)' % (rm.group(1), rm.group(2), clo), stmts)
+                cur = bind('map', '%s(%s, %s, %s)' % (opts.get('range', 'range_map_collect'), rm.group(1), rm.group(2), clo), stmts)
             else:
                 cur = bind('map', 'vec_map_collect(%s, %s)' % (cur, clo), stmts)
         elif name == 'chain':
@@ -687,7 +689,7 @@ def let_pipelines(body, hit, ctr, opts):
     bound = []
     out = []
     i = 0
-    rx = re.compile(r'\blet\s+(?:mut\s+)?([a-z_]\w*)\s*=\s*')
+    rx = re.compile(r'\blet\s+(?:mut\s+)?([a-z_]\w*)\s*(?::\s*[\w<>:, _&]+?)?\s*=\s*')
     while True:
         m = rx.search(body, i)
         if not m:
@@ -714,7 +716,7 @@ def let_pipelines(body, hit, ctr, opts):
         rhs = body[m.end():j]
         if is_pipeline(rhs, bound):
             out.append(body[i:m.start()])
-            out.append(pipeline(rhs, hit, ctr, opts, flat_into=m.group(1)))
+            out.append(pipeline(rhs, hit, ctr, opts, flat_into=('mut ' if re.match(r'let\s+mut\b', m.group(0)) else '') + m.group(1)))
             bound.append(m.group(1))
             i = j + 1
         else:
